@@ -12,6 +12,8 @@ CONSTANTS
   PenaltySet = {1}
   KSet = {1}
   PreSet = {0}
+  PostSet = {0}
+  TransOn = FALSE
   TraceFile = "trace.ndjson"
   Checked = {"count", "sig", "att", "exps", "pend", "tssAct", "ownAct", "cool", "mapped", "nSucc", "nFail"}
   Owned = {"Request.create", "SubmitSig", "Activate", "EndBlock"}
